@@ -150,6 +150,8 @@ func C12(c *Ctx) {
 		}
 	}
 	c05Rollback(c, "C12.P2.storeMemoryAgreement")
+	r.Rule("C12.P8.innerMapKey", "in MemoryAllocationStore.SaveAllocation/UnmarshalJSON an inner index map is created under the very key whose absence was tested", 5)
+	c12InnerMapKey(c)
 	c12KeyScope(c)
 	c12Serialisation(c)
 	// P5: reuse the eviction clause of the pairing rule on the bitmap allocator
